@@ -17,7 +17,7 @@ func init() {
 		Technique:   "ordering / guarded-sink rules on the SSA CFG of the policy checkers (rule precedence, deny-then-allow gates, OR-loop over alternatives), sibling agreement between the four rule checkers, struct field coverage of the four constraint checkers, constant shape of the name-matcher regexp",
 		Explanation: "Structural necessary conditions for 'interface connection/installation decisions follow the declared policy rules': (R1) precedence: ConnectCandidate.check consults the plug snap's declaration, then the slot snap's, then the base declaration's plug rule, then its slot rule, and the first rule found decides (its verdict is returned, later rules unreachable); InstallCandidate.checkSlot/checkPlug consult the snap declaration before the base declaration; mismatched interface names are refused before any rule; (R2) the four rule checkers answer nil only when the deny alternatives did NOT match and the allow alternatives did, with deny/allow taken from the same kind (connection, auto-connection or installation) of the rule; (R3) each alternatives checker returns success only from inside its loop on a successful single-alternative check of the loop element, continues only after a failed one, and otherwise returns the remembered first error; (R4) each single-alternative checker reads every field of its constraints type (all but the arity fields) and hands it to a check whose failure is returned; checkID skips unknown special ids instead of failing on them; (R5) the name matcher compiled for plug-names/slot-names anchors the whole alternation: ^( ... )$.",
 		NotDecided:  "attribute matcher semantics and $-specials in asserts/ifacedecls.go beyond the anchoring; the contents of the base declaration; arity handling of auto-connections; InstallCandidateMinimalCheck (documented reduced check).",
-		Run:         func(c *Ctx) { runC21(c); runC21x(c) },
+		Run:         func(c *Ctx) { runC21(c); runC21x(c); runC21z(c) },
 	})
 }
 
